@@ -742,14 +742,14 @@ func checkScan(r *Run, prog *Program, a *Anchors, pfx string) {
 // checkWithLocalVariable: the option pushes one new binding (innermost last), never edits existing ones.
 func checkWithLocalVariable(r *Run, prog *Program, pfx string) {
 	wlv := prog.BexprSSA.Func("WithLocalVariable")
-	if wlv == nil || len(wlv.AnonFuncs) != 1 {
-		r.Fail("unresolved-anchor", pfx+".binding-push", "WithLocalVariable", "", "constructor/closure not found")
+	if wlv == nil {
+		r.Fail("unresolved-anchor", pfx+".binding-push", "WithLocalVariable", "", "constructor not found")
 		return
 	}
-	cl := wlv.AnonFuncs[0]
+	cl := wlv
 	// decided on the closure's paths (a helper method of *options that does the push is interpreted in place): one path,
 	// one store, into the bindings field, of append(<that same field>, <one new binding>)
-	paths := optionClosureStores(prog, cl)
+	paths := optionEffect(prog, cl)
 	field := optField(prog, "WithLocalVariable")
 	okShape := len(paths) == 1
 	stores, appends := 0, 0
